@@ -33,3 +33,6 @@ CHECKS["C18"] = c20_check.run
 
 import c12_check
 CHECKS["C12"] = c12_check.run
+
+import c11_check
+CHECKS["C11"] = c11_check.run
